@@ -14,6 +14,7 @@
 (*                 manager, clock, event loop)                             *)
 (*        "static" urefcount without destructor (use/release are no-ops)   *)
 (*        "uref" "ubuf" "udict" "mem"   single-owner structures            *)
+(*        "pump" "blocker"   watchers and blockers handed out by the event loop *)
 (*   st   "live" | "dying" (its destructor is running) | "dead"            *)
 (*   rc   value of the reference counter                                   *)
 (*   app  references (k = "rc") or ownership (other kinds, 0/1) held by    *)
@@ -56,7 +57,7 @@ Has(T, o) == o \in DOMAIN T
 Put(T, o, r) == (o :> r) @@ T
 Prune(T, o) == [x \in (DOMAIN T) \ {o} |-> T[x]]     \* forget a dead object (trace validation: ids are never reused)
 Counted(r) == r.k = "rc"
-Single(r) == r.k \in {"uref", "ubuf", "udict", "mem"}
+Single(r) == r.k \in {"uref", "ubuf", "udict", "mem", "pump", "blocker"}
 Fld(ev, f, d) == IF f \in DOMAIN ev THEN ev[f] ELSE d
 
 (* the sentence event ev violates in table T, or "ok" *)
